@@ -10,6 +10,7 @@
 import TE.Model.Binned
 import TE.Spec.Binned
 import TE.Lemmas.Binned
+import TE.Lemmas.BinnedArea
 namespace TE.C06
 open TE TE.Binned TE.Spec.Binned TE.BinnedL
 
@@ -258,5 +259,169 @@ theorem curve_recall_nan (s : Samples) (u : Q) (h : s.countP (fun p => p.2 == 1)
 example : curve [(1/8, 1), (1/4, 0), (1/2, 1), (1, 1)] [1/4, 1/2, 1]
     = ([.val (2/3), .val 1, .val 1, .val 1], [.val (2/3), .val (2/3), .val (1/3), .val 0]) := by decide +kernel
 example : ((tpAt [(1/8, 1), (1/4, 0)] (1/2) : Nat) + fpAt [(1/8, 1), (1/4, 0)] (1/2) = 0) := by decide +kernel
+
+/-! ## 5. binned AUROC = exact AUROC of the scores rounded down to the threshold grid -/
+
+/-- the executable `floorTo?` returns the largest threshold not exceeding the score. -/
+theorem floorTo_isFloor (t : List Q) (x v : Q) (h : floorTo? t x = some v) : IsFloorOf t x v :=
+  floorTo?_isFloor t x v h
+
+/-- **binned AUROC (one task)**: sorted thresholds (duplicates allowed), 0/1 labels, every score has a
+    threshold at or below it (e.g. `t[0] = 0` and scores in `[0, 1]`); `f` rounds the scores down to the
+    grid.  Then `_binary_binned_auroc_compute` (comparison, rot90+pad, trapz, `/ (TP₀·FP₀)`, `0.5` when
+    that factor is 0) returns the exact AUROC — fraction of correctly ordered (positive, negative) pairs,
+    ties ½, `0.5` without such a pair — of the floored scores. -/
+theorem binned_auroc_eq_floor (t : List Q) (s : Samples) (f : Q → Q)
+    (hs : t.Pairwise (· ≤ ·)) (hne : t ≠ []) (h01 : ∀ p ∈ s, p.2 ≤ 1)
+    (hf : ∀ p ∈ s, IsFloorOf t p.1 (f p.1)) :
+    binnedAurocRow t (s.map (·.1)) (s.map fun p => ((p.2 : Nat) : Q))
+      = aurocSpec (s.map fun p => (f p.1, p.2)) :=
+  binnedAurocRow_floor t s f hs hne h01 hf
+
+/-- the same with the executable floor. -/
+theorem binned_auroc_eq_floorTo (t : List Q) (s : Samples) (f : Q → Q)
+    (hs : t.Pairwise (· ≤ ·)) (hne : t ≠ []) (h01 : ∀ p ∈ s, p.2 ≤ 1)
+    (hf : ∀ p ∈ s, floorTo? t p.1 = some (f p.1)) :
+    binnedAurocRow t (s.map (·.1)) (s.map fun p => ((p.2 : Nat) : Q))
+      = aurocSpec (s.map fun p => (f p.1, p.2)) :=
+  binned_auroc_eq_floor t s f hs hne h01 (fun p hp => floorTo?_isFloor t p.1 (f p.1) (hf p hp))
+
+/-- per task: `binary_binned_auroc` with `num_tasks` rows applies the one-task computation to every row. -/
+theorem binned_auroc_per_task (t : List Q) (tasks : List (List Q × List Q)) :
+    binaryBinnedAuroc t tasks = tasks.map fun p => binnedAurocRow t p.1 p.2 := rfl
+
+/-- the value of the exact AUROC under its guard, and the documented `0.5` otherwise. -/
+theorem aurocSpec_val (s : Samples) (h : ((positives s).length : Q) * ((negatives s).length : Q) ≠ 0) :
+    aurocSpec s = pairSum s / (((positives s).length : Q) * ((negatives s).length : Q)) := by
+  unfold aurocSpec; simp [h]
+
+theorem aurocSpec_degenerate (s : Samples) (h : ((positives s).length : Q) * ((negatives s).length : Q) = 0) :
+    aurocSpec s = 1 / 2 := by
+  unfold aurocSpec; simp [h]
+
+example : IsFloorOf [0, 1/4, 1/4, 1] (1/2) (1/4) := floorTo_isFloor _ _ _ (by decide +kernel)
+example : binnedAurocRow [0, 1/4, 1/4, 1] [1/8, 1/2, 1/4, 1] [0, 1, 0, 1] = 7/8 := by decide +kernel
+example : aurocSpec [(0, 0), (1/4, 1), (1/4, 0), (1, 1)] = 7/8 := by decide +kernel
+
+/-! ### `multiclass_binned_auroc`: the code reduces over the wrong axis (recorded finding)
+
+  Intended statement (FALSE for the code as it is):
+    `mcBinnedAuroc t C rows labs = (List.range C).map fun c => aurocSpec (floored (ovr rows labs c))`
+  i.e. one one-vs-rest binned AUROC per class.  `_multiclass_binned_auroc_compute` sums
+  `pred_label` of shape (T, n, C) over `dim=-1` (classes), so the model — like the code — treats every
+  *sample* as a task whose "samples" are its C class scores. -/
+
+/-- what the code does compute: per sample, the binned AUROC of that sample's class scores against
+    its one-hot label. -/
+theorem multiclass_binned_auroc_partial (t : List Q) (C : Nat) (rows : List (List Q)) (labs : List Nat) :
+    mcBinnedAuroc t C rows labs = (rows.zip labs).map fun p => binnedAurocRow t p.1 (oneHot C p.2) := rfl
+
+/-- the output has one entry per sample, not per class. -/
+theorem multiclass_binned_auroc_length (t : List Q) (C : Nat) (rows : List (List Q)) (labs : List Nat)
+    (hlen : rows.length = labs.length) : (mcBinnedAuroc t C rows labs).length = rows.length := by
+  simp [mcBinnedAuroc, hlen]
+
+/-- witness: 4 samples, 3 classes, thresholds {0,¼,½,¾,1}: the code's result has 4 entries, none of the
+    per-class one-vs-rest binned AUROCs (7/8, 5/6, 1). Replayed on the real code by `./check C06`. -/
+theorem multiclass_binned_auroc_witness :
+    mcBinnedAuroc [0, 1/4, 1/2, 3/4, 1] 3 [[1/4, 1/2, 1/4], [0, 1/4, 3/4], [3/4, 1/4, 0], [1/4, 1/2, 1/4]] [1, 2, 0, 0]
+        = [1, 1, 1, 1/4]
+      ∧ mcBinnedAurocIntended [0, 1/4, 1/2, 3/4, 1] 3 [[1/4, 1/2, 1/4], [0, 1/4, 3/4], [3/4, 1/4, 0], [1/4, 1/2, 1/4]] [1, 2, 0, 0]
+        = [7/8, 5/6, 1] := by
+  decide +kernel
+
+/-- the intended per-class computation does satisfy the floor statement (it is the binary row applied to
+    the one-vs-rest problem of each class). -/
+theorem multiclass_binned_auroc_intended_eq_floor (t : List Q) (C : Nat) (rows : List (List Q)) (labs : List Nat)
+    (f : Q → Q) (hs : t.Pairwise (· ≤ ·)) (hne : t ≠ []) (hlen : rows.length = labs.length)
+    (hf : ∀ c, c < C → ∀ p ∈ ovr rows labs c, IsFloorOf t p.1 (f p.1)) :
+    mcBinnedAurocIntended t C rows labs
+      = (List.range C).map fun c => aurocSpec ((ovr rows labs c).map fun p => (f p.1, p.2)) := by
+  unfold mcBinnedAurocIntended
+  apply List.map_congr_left
+  intro c hc
+  have hc : c < C := List.mem_range.mp hc
+  have h := binned_auroc_eq_floor t (ovr rows labs c) f hs hne (ovr_label_le rows labs c) (hf c hc)
+  have e1 : (ovr rows labs c).map (·.1) = rows.map fun r => colAt r c := by
+    have : rows = (rows.zip labs).map Prod.fst := (List.map_fst_zip (by omega)).symm
+    conv => rhs; rw [this]
+    simp [ovr, colAt, List.map_map, Function.comp_def]
+  have e2 : ((ovr rows labs c).map fun p => ((p.2 : Nat) : Q)) = labs.map fun l => b2q (l == c) := by
+    have : labs = (rows.zip labs).map Prod.snd := (List.map_snd_zip (by omega)).symm
+    conv => rhs; rw [this]
+    simp only [ovr, List.map_map]
+    apply List.map_congr_left
+    intro p _
+    by_cases hpc : p.2 = c
+    · simp [hpc, b2q]
+    · simp [hpc, b2q]
+  rw [e1, e2] at h
+  exact h
+
+/-! ## 6. binned AUPRC = exact AUPRC (average precision) of the floored scores -/
+
+/-- **binned AUPRC (one task / class / label)**: `nan_to_num(_riemann_integral(recall, precision))` on the
+    per-threshold counts equals the exact AUPRC of the floored scores — `Σ (r_k − r_{k+1})·p_k` over the
+    distinct floored scores, i.e. the mean over the positives of the precision at their own floored score —
+    for sorted thresholds (duplicates, thresholds hit by no score allowed), 0/1 labels, every score having a
+    threshold at or below it, and at least one positive. -/
+theorem binned_auprc_eq_floor (t : List Q) (s : Samples) (f : Q → Q)
+    (hs : t.Pairwise (· ≤ ·)) (h01 : ∀ p ∈ s, p.2 ≤ 1)
+    (hf : ∀ p ∈ s, IsFloorOf t p.1 (f p.1)) (hP : (positives s).length ≠ 0) :
+    auprcOf (t.map fun u => ((tpAt s u : Nat) : Q)) (t.map fun u => ((fpAt s u : Nat) : Q))
+        (t.map fun u => ((fnAt s u : Nat) : Q))
+      = auprcSpec (s.map fun p => (f p.1, p.2)) := by
+  unfold auprcOf
+  rw [binned_curve_eq]
+  exact auprcOfCurve_floor t s f hs h01 hf hP
+
+/-- without any positive sample the recall is 0/0 at every threshold and the code reports `0`
+    (`nan_to_num(nan=0.0)`) — the same convention as the exact AUPRC. -/
+theorem binned_auprc_no_positives (t : List Q) (s : Samples) (f : Q → Q) (hne : t ≠ [])
+    (hP : (positives s).length = 0) :
+    auprcOf (t.map fun u => ((tpAt s u : Nat) : Q)) (t.map fun u => ((fpAt s u : Nat) : Q))
+        (t.map fun u => ((fnAt s u : Nat) : Q)) = 0
+      ∧ auprcSpec (s.map fun p => (f p.1, p.2)) = 0 := by
+  constructor
+  · unfold auprcOf
+    rw [binned_curve_eq]
+    exact auprcOfCurve_no_positives t s hne hP
+  · unfold auprcSpec
+    simp [positives_map, hP]
+
+/-- the whole binary pipeline (`_update` by histogram, `_compute`, Riemann integral) on a valid input. -/
+theorem binary_binned_auprc_eq_floor (t xs : List Q) (ys : List Nat) (f : Q → Q)
+    (hs : t.Pairwise (· ≤ ·)) (hne : t ≠ []) (hlen : xs.length = ys.length) (hy : ∀ y ∈ ys, y ≤ 1)
+    (hf : ∀ p ∈ xs.zip ys, IsFloorOf t p.1 (f p.1)) (hP : (positives (xs.zip ys)).length ≠ 0) :
+    (binaryUpdate t xs ys).map (fun c => auprcOf c.1 c.2.1 c.2.2)
+      = .ok (auprcSpec ((xs.zip ys).map fun p => (f p.1, p.2))) := by
+  rw [binned_counts_eq t xs ys hs hne hlen hy]
+  exact congrArg Except.ok (binned_auprc_eq_floor t (xs.zip ys) f hs
+    (fun p hp => hy p.2 (List.of_mem_zip hp).2) hf hP)
+
+/-- per class / per label: column `c` of the count matrices (either optimisation mode, by §3) gives the
+    exact AUPRC of the floored one-vs-rest / label-column problem. -/
+theorem binned_auprc_eq_floor_mat (view : Nat → Samples) (S : Nat) (t : List Q) (f : Q → Q) (c : Nat) (hc : c < S)
+    (hs : t.Pairwise (· ≤ ·)) (h01 : ∀ p ∈ view c, p.2 ≤ 1)
+    (hf : ∀ p ∈ view c, IsFloorOf t p.1 (f p.1)) (hP : (positives (view c)).length ≠ 0) :
+    auprcOf (column (countMats view S t).1 c) (column (countMats view S t).2.1 c) (column (countMats view S t).2.2 c)
+      = auprcSpec ((view c).map fun p => (f p.1, p.2)) := by
+  unfold countMats
+  simp only [column_map_range t S _ c hc]
+  exact binned_auprc_eq_floor t (view c) f hs h01 hf hP
+
+/-- the value of the exact AUPRC under its guard. -/
+theorem auprcSpec_val (s : Samples) (h : ((positives s).length : Q) ≠ 0) :
+    auprcSpec s = apSum s / ((positives s).length : Q) := by
+  unfold auprcSpec; simp [h]
+
+example : auprcOf [2, 2, 2, 1] [2, 1, 1, 0] [0, 0, 0, 1] = 5/6
+    ∧ auprcSpec [(0, 0), (1/4, 1), (1/4, 0), (1, 1)] = 5/6 := by decide +kernel
+example : ∀ p ∈ ([(1/8, 0), (1/2, 1), (1/4, 0), (1, 1)] : Samples),
+    IsFloorOf [0, 1/4, 1/4, 1] p.1 ((fun x => if x < 1/4 then 0 else if x < 1 then 1/4 else 1) p.1) := by
+  intro p hp
+  apply floorTo_isFloor
+  revert p
+  decide +kernel
 
 end TE.C06
